@@ -27,7 +27,7 @@ FLOORS = {'quick': {'queries': 6000, 'tag_zero_queries': 800, 'tag_queries': 300
                     'random_picks': 100000, 'reachability_checks': 700, 'shuffles': 8000, 'shuffles_reordered': 2000, 'size_preserving_swaps': 1500, 'big_populations': 6, 'ids_taken_over_by_new_objects': 100, 'nested_environment_agents': 300, 'failed_removals': 60, 'secondary_environment_populations': 100, 'completed_model_populations': 80,
                     'reach:Core.Environment.get_agents': 100000, 'reach:Core.Environment.get_random_agent': 100000,
                     'reach:Core.Environment.shuffle': 8000},
-          'thorough': {'queries': 600000, 'reachability_checks': 80000}}
+          'thorough': {'queries': 480000, 'reachability_checks': 66000}}
 EXHAUSTIVE = {}
 
 _K = None
